@@ -200,7 +200,8 @@ func (s *Schema) Validate(document jschema.Document) (err error) {
 		return err
 	}
 
-	if _, ok := document.(*json.Document); !ok {
+	jsonDocument, ok := document.(*json.Document)
+	if !ok {
 		return fmt.Errorf("support only JSON documents, but got %T", document)
 	}
 
@@ -208,7 +209,9 @@ func (s *Schema) Validate(document jschema.Document) (err error) {
 		return errors.NewDocumentError(s.file, errors.ErrEmptySchema)
 	}
 
-	return s.validate(document)
+	// The document is read from the beginning, whatever was read from it before,
+	// and its own position is left untouched.
+	return s.validate(jsonDocument.Clone())
 }
 
 func (s *Schema) validate(document jschema.Document) error {
